@@ -25,5 +25,5 @@ Extraction "model.ml"
   Spec.split_spec Spec.split_model Spec.posix_table Expand.expand Expand.word_size Expand.join_all Expand.ifs_value
   Expand.expand_top Expand.split_field Expand.fempty Expand.funquote
   Grammar.parse_tokens Grammar.parse_subst Skel.sk_word Layout.scan_gap Layout.scan_linebreak Heredocs.hrun Heredocs.reader
-  Ends.end_part Ends.word_end Ends.layout Reprint.print_parts
+  Ends.end_part Ends.word_end Ends.layout Reprint.print_parts Reprint.print_pexp
   AEval.eval_model AEval.eval_top_i AEval.eval_c AEval.c_defined AEval.eager_safe AEval.numeric_store AEval.runes_of AEval.parse_int0.
